@@ -134,10 +134,15 @@ def is_recursive(
     default_conversion: DefaultConversion,
     checker_cls: Type[RecursiveChecker],
 ) -> bool:
-    cache, rec_key = recursion_cache(checker_cls), (tp, conversion)
+    rec_key = (tp, conversion)
     with _recursion_lock:
+        cache = recursion_cache(checker_cls)
         if rec_key not in cache:
-            checker_cls(default_conversion).visit_with_conv(tp, conversion)
+            checker = checker_cls(default_conversion)
+            checker.visit_with_conv(tp, conversion)
+            # caches can be reset at any time (registration in another thread,
+            # cache.set_size(0)): read the result where the checker has written it
+            cache = checker._cache
         return cache[rec_key]
 
 
